@@ -220,9 +220,6 @@ func zxC07Flatten() {
 	ku := vrtShape("untilK", N+3) - 1
 	asOf := top.Add(-time.Duration(ka) * res)
 	until := top.Add(-time.Duration(ku) * res)
-	if !until.After(asOf) {
-		return // empty or inverted window: rejected by the planner
-	}
 	opts := GroupOpts{}
 	if vrtShape("hasAsOf", 2) == 1 {
 		opts.AsOf = asOf
@@ -233,6 +230,9 @@ func zxC07Flatten() {
 		opts.Until = until
 	} else {
 		until = src.until
+	}
+	if until.Sub(asOf) < res {
+		return // empty or inverted window: group.GetAsOf widens it to one period by design (C07.P)
 	}
 	got := map[int]float64{} // period index (relative to top) -> value
 	n := 0
